@@ -82,6 +82,7 @@ CONSTANTS
                         \*          which RoundTrip is false (finding of this check); kept as negative control
     ReaderChecksRef,    \* reader rejects a missing / unparsable reference label
     ReaderChecksDigest, \* reader rejects a missing / unparsable digest label (and unparsable layers entries)
+    ReaderResetsUrls,   \* a neighbour without a urls.<i> label has NO URLs (FALSE: it inherits the previous neighbour's)
     ReaderSkipsTarget   \* reader leaves occurrences of the target's own digest out of the neighbour list
 
 \* ---------------------------------------------------------------- tables
@@ -93,7 +94,19 @@ BigFrom == 1000
 ExactFrom == 100000                         \* url id ExactFrom + n is a URL of exactly n bytes (boundary family)
 ULen(u) == IF u = 0 THEN 0 ELSE IF u >= ExactFrom THEN u - ExactFrom
            ELSE IF u <= Len(ULenTab) THEN ULenTab[u] ELSE IF u < BigFrom THEN ULenMid ELSE ULenBig
-RefLenTab == <<25, 300>>
+RefLenTab == <<25, 300>>                    \* ref ids 1, 2: abstract references of these lengths (built by the driver)
+\* ref ids 3..8: CONCRETE reference shapes, compared byte for byte: the driver puts exactly this string into the
+\* handler and projects what the reader reconstructs (reference.Spec.String()) back to the id only if it is the
+\* identical string - name:tag, name@digest, name:tag@digest, host:port/name:tag, docker.io as containerd writes it
+RefDgst == "sha256:0123456789abcdef0123456789abcdef0123456789abcdef0123456789abcdef"
+RefStr == <<"", "",
+            "ghcr.io/stargz-containers/ubuntu:22.04-esgz",
+            "ghcr.io/stargz-containers/ubuntu@" \o RefDgst,
+            "ghcr.io/stargz-containers/ubuntu:22.04@" \o RefDgst,
+            "registry.local:5000/team/app:v1",
+            "docker.io/library/alpine:3.19",
+            "docker.io/library/busybox:latest@" \o RefDgst>>
+RefLen(r) == IF RefStr[r] = "" THEN RefLenTab[r] ELSE Len(RefStr[r])
 PfTab == <<[v |-> "0", len |-> 1], [v |-> "10485760", len |-> 8], [v |-> "9223372036854775807", len |-> 19]>>
 ManifestDigest == 900                       \* digest id of the manifest itself (cri.manifest-digest)
 ConfigDigest == 0
@@ -157,7 +170,10 @@ LongTargets(n) == {t \in {1, 2, 3, 4, n - 57, n - 56, n - 55, n - 54, n} : t >= 
 
 TamperManifests ==
     { <<Entry(1, <<11>>, TRUE), Entry(2, <<12>>, TRUE)>>,
-      <<Entry(1, <<>>, TRUE), Entry(2, <<12>>, TRUE), Entry(1, <<11>>, TRUE)>> }
+      <<Entry(1, <<>>, TRUE), Entry(2, <<12>>, TRUE), Entry(1, <<11>>, TRUE)>>,
+      \* four distinct layers, each with its own URL: removing urls.2 / urls.3 leaves a neighbour without URLs while an
+      \* EARLIER neighbour has some (urls.0 is the target's own entry and urls.1 always the first neighbour's)
+      <<Entry(1, <<11>>, TRUE), Entry(2, <<12>>, TRUE), Entry(3, <<13>>, TRUE), Entry(4, <<14>>, TRUE)>> }
 
 \* ---- family "edge", part 1: URL lists that land exactly on / next to the label size limit.
 \* For a URL-carrying key of klen bytes the list is chosen so that key + joined value would be T bytes,
@@ -242,7 +258,7 @@ DefaultAnn(man, t, ref, pf) ==
     LET ch == Children(man)
         c == ch[t]
         loop == DefLoop(SubSeq(ch, t, Len(ch)), 0, 0, EmptyVal, <<>>)
-    IN (RefKey :> Val(<<ref>>, RefLenTab[ref]))
+    IN (RefKey :> Val(<<ref>>, RefLen(ref)))
        @@ (DigestKey :> Val(<<c.d>>, DLen))
        @@ loop.ann
        @@ (LayersKey :> Trimmed(loop.acc))
@@ -270,7 +286,7 @@ ExtraAnn(man, t, ref, pf) ==
     LET ch == Children(man)
         c == ch[t]
         nl == CriLayersLoop(SubSeq(ch, t, Len(ch)), EmptyVal)
-        wrapper == (CriRefKey :> Val(<<ref>>, RefLenTab[ref]))
+        wrapper == (CriRefKey :> Val(<<ref>>, RefLen(ref)))
                    @@ (CriDigestKey :> Val(<<c.d>>, DLen))
                    @@ (CriLayersKey :> nl)
                    @@ (CriManifestKey :> Val(<<ManifestDigest>>, DLen))
@@ -296,13 +312,15 @@ Writer(man, t, ref, pf, fl) == IF fl = "default" THEN DefaultAnn(man, t, ref, pf
 \* ---------------------------------------------------------------- tampering
 \* fixed order of the keys a tamper step may hit (steps go through it upwards, so every SUBSET is reached once)
 TKeys == <<RefKey, DigestKey, LayersKey, PrefetchKey, UrlsKey, UrlsIdxKey(0), UrlsIdxKey(1), UrlsIdxKey(2),
-           CriRefKey, CriDigestKey, CriLayersKey>>
+           CriRefKey, CriDigestKey, CriLayersKey, UrlsIdxKey(3)>>
+\* malformed reference spellings: 4 derived from the reference + host-less "ubuntu:22.04", "app:v1" and " "
+RefVariants == IF NVariants >= 4 THEN 7 ELSE NVariants
 TamperOps(lbl, from) ==
     {[op |-> "rm", key |-> p, j |-> 0, var |-> 0] : p \in {q \in from..Len(TKeys) : TKeys[q] \in DOMAIN lbl}}
     \cup {[op |-> "empty", key |-> p, j |-> 0, var |-> 0] : p \in {q \in from..Len(TKeys) : TKeys[q] \in DOMAIN lbl}}
-    \cup {[op |-> "corrupt", key |-> p, j |-> 1, var |-> v] :
-            p \in {q \in from..Len(TKeys) : TKeys[q] \in DOMAIN lbl /\ TKeys[q] \in {RefKey, DigestKey, CriRefKey, CriDigestKey}},
-            v \in 1..NVariants}
+    \cup UNION {{[op |-> "corrupt", key |-> p, j |-> 1, var |-> v] :
+                    v \in 1..(IF TKeys[p] \in {RefKey, CriRefKey} THEN RefVariants ELSE NVariants)}
+                : p \in {q \in from..Len(TKeys) : TKeys[q] \in DOMAIN lbl /\ TKeys[q] \in {RefKey, DigestKey, CriRefKey, CriDigestKey}}}
     \cup UNION {{[op |-> "corrupt", key |-> p, j |-> j, var |-> v] : j \in 1..Len(lbl[TKeys[p]].items), v \in 1..NVariants}
                 : p \in {q \in from..Len(TKeys) : TKeys[q] \in DOMAIN lbl /\ TKeys[q] \in {LayersKey, CriLayersKey}}}
 
@@ -337,10 +355,10 @@ Read(it, K) ==
             ELSE LET idx == SelectSeq([j \in 1..Len(toks) |-> j], LAMBDA j : ~ReaderSkipsTarget \/ toks[j] # tgt)
                  IN [ok |-> TRUE, ref |-> ref, digest |-> tgt,
                      urls |-> IF UrlsKey \in DOMAIN it THEN Split(it[UrlsKey]) ELSE <<>>,
-                     neigh |-> [n \in 1..Len(idx) |->
-                                  [d |-> toks[idx[n]],
-                                   urls |-> IF UrlsIdxKey(idx[n] - 1) \in DOMAIN it
-                                            THEN Split(it[UrlsIdxKey(idx[n] - 1)]) ELSE <<>>]]]
+                     neigh |-> LET nu[n \in 1..Len(idx)] ==
+                                       IF UrlsIdxKey(idx[n] - 1) \in DOMAIN it THEN Split(it[UrlsIdxKey(idx[n] - 1)])
+                                       ELSE IF ReaderResetsUrls \/ n = 1 THEN <<>> ELSE nu[n - 1]
+                               IN [n \in 1..Len(idx) |-> [d |-> toks[idx[n]], urls |-> nu[n]]]]
 
 \* service.sources(sourceFromCRILabels, FromDefaultLabels): first reader that succeeds
 ReadWith(it, rd) ==
@@ -418,6 +436,18 @@ PExtraKeepsPreset(man, t, fl, wl) ==
             LET e == Children(man)[t].pre[i] IN
             e.k \in DOMAIN wl /\ wl[e.k].items = PreItems(e)
 
+\* UrlsOwnOrNone ("each paired with its own URLs and never with another layer's", under EVERY label subset, tampered
+\* or not): in an accepted read the target's URLs are a prefix of the target descriptor's, and every neighbour's
+\* URLs are a prefix of the URLs of a manifest layer with that neighbour's digest - in particular a neighbour whose
+\* urls.<i> label is missing or empty has none (or the empty-string encoding), never another layer's
+PUrlsOwnOrNone(man, t, res) ==
+    LET ch == Children(man) IN
+    res.ok =>
+        /\ EmptyOnlyAlone(res.urls) /\ IsPrefix(Eff(res.urls), ch[t].urls)
+        /\ \A k \in 1..Len(res.neigh) :
+             /\ EmptyOnlyAlone(res.neigh[k].urls)
+             /\ \E i \in 1..Len(ch) : ch[i].isLayer /\ ch[i].d = res.neigh[k].d /\ IsPrefix(Eff(res.neigh[k].urls), ch[i].urls)
+
 \* MalformedMandatoryRejected: a reader whose mandatory labels (reference, digest) are missing or malformed
 \* rejects; and whatever was tampered with, an accepted read names the original ref and digest, never another
 MandatoryBad(it, K) == K.ref \notin DOMAIN it \/ ~TokOk(it[K.ref]) \/ K.digest \notin DOMAIN it \/ ~TokOk(it[K.digest])
@@ -438,7 +468,7 @@ CaseRec == [family |-> Family, man |-> cs.man, ref |-> cs.ref, pf |-> cs.pf, fl 
 Init ==
     /\ phase = "start" /\ cs = NoCase /\ tgt = 0 /\ wl = <<>> /\ lbl = <<>> /\ tam = <<>> /\ rd = "none" /\ res = Fail
     /\ Emit => PrintT("VTAB " \o ToJson([ulen |-> ULenTab, ulenmid |-> ULenMid, ulenbig |-> ULenBig, bigfrom |-> BigFrom, exactfrom |-> ExactFrom,
-                                        manifestdigest |-> ManifestDigest, reflen |-> RefLenTab, pf |-> PfTab, dlen |-> DLen,
+                                        manifestdigest |-> ManifestDigest, reflen |-> RefLenTab, refstr |-> RefStr, refvariants |-> RefVariants, pf |-> PfTab, dlen |-> DLen,
                                         tkeys |-> TKeys, nvariants |-> NVariants, maxsize |-> MaxSize]))
 
 Choose(m, rp, fl) ==
@@ -488,6 +518,7 @@ NeighbourUrlsPositional ==
     (phase = "read" /\ tam = <<>> /\ Matched(cs.fl, rd)) => PNeighbourUrlsPositional(cs.man, tgt, cs.fl, res)
 PrefetchSizeRoundTrips == phase \in {"picked", "read"} => PPrefetch(cs.man, tgt, cs.fl, wl, cs.pf)
 ExtraKeepsPreset == phase \in {"picked", "read"} => PExtraKeepsPreset(cs.man, tgt, cs.fl, wl)
+UrlsOwnOrNone == phase = "read" => PUrlsOwnOrNone(cs.man, tgt, res)
 MalformedMandatoryRejected == phase = "read" => PMalformedRejected(cs.man, tgt, cs.ref, Items(lbl), rd, res)
 \* internal consistency (not a property formula): the tamper log explains lbl
 TamperLogExplains == phase \in {"picked", "read"} => lbl = ApplyTampers(wl, tam)
